@@ -108,6 +108,42 @@ def compare(chk, rule, fn_filter=None, floor=1):
 IFW = re.compile(r"(writer::Writer::(add_\w+|finish|new)|a2ml::GenericIfData::(write|write_item)|vec::Vec::push|Vec::push)$")
 
 
+def value_chain(b, l, depth=0):
+    """computations a value went through on its way into local l: arithmetic operators and non-trivial calls, nearest first (copies,
+    references, field reads and plain conversions are skipped)"""
+    if depth > 8 or 1 <= l <= b.argc:
+        return []
+    defs = []
+    for blk in b.blocks:
+        if blk["cleanup"]:
+            continue
+        for st in blk["s"]:
+            if st["k"] == "assign" and not st["p"]["p"] and st["p"]["l"] == l:
+                defs.append(("s", st))
+        t = blk["t"]
+        if t["k"] == "call" and t.get("dest") and not t["dest"]["p"] and t["dest"]["l"] == l:
+            defs.append(("c", t))
+    if len(defs) != 1:
+        return []
+    k, d = defs[0]
+    if k == "s":
+        rv = d["rv"]
+        if rv["r"] == "bin":
+            pl = mir.op_place(rv["a"])
+            return ["arith:" + rv["op"].replace("WithOverflow", "")] + (value_chain(b, pl["l"], depth + 1) if pl is not None and not pl["p"] else [])
+        if rv["r"] == "un":
+            pl = mir.op_place(rv["a"])
+            return ["arith:" + rv["op"]] + (value_chain(b, pl["l"], depth + 1) if pl is not None and not pl["p"] else [])
+        pl = rv["p"] if rv["r"] == "ref" else (mir.op_place(rv["a"]) if rv["r"] in ("use", "cast") else None)
+        return value_chain(b, pl["l"], depth + 1) if pl is not None else []
+    nm = mir.strip_generics((d.get("res") or "").lstrip("?")).split("::")[-1]
+    ip = mir.op_place(d["args"][0]) if d["args"] else None
+    rest = value_chain(b, ip["l"], depth + 1) if ip is not None and not ip["p"] else []
+    if nm in ("deref", "deref_mut", "as_ref", "as_mut", "borrow", "as_str", "into", "from", "clone", "to_owned", "to_string"):
+        return rest
+    return [nm] + rest
+
+
 def ifdata_table(prog):
     """rows of GenericIfData::write / write_item: which writer call emits which variant's value (and location), the recursion into
     nested items, the tagged items handed to add_group"""
@@ -118,7 +154,15 @@ def ifdata_table(prog):
         nm = mir.strip_generics(ev[1])
         if IFW.search(nm):
             args = ev[2][1:] if ev[2] else []
-            return "%s(%s)" % (nm.split("::")[-1], ", ".join(guards.fmt_terms(a, limit=2) for a in args[:3]))
+            eff_ = "%s(%s)" % (nm.split("::")[-1], ", ".join(guards.fmt_terms(a, limit=2) for a in args[:3]))
+            if re.search(r"Writer::add_(float|integer|str|str_raw|quoted_string)$", nm):
+                # the value is handed to the writer as it was read: no arithmetic or conversion call in between
+                pt = b.blocks[ev[6]]["t"]
+                ap = mir.op_place(pt["args"][1]) if len(pt.get("args", [])) > 1 else None
+                ch = value_chain(b, ap["l"]) if ap is not None and not ap["p"] else []
+                if ch:
+                    eff_ += " <- " + "<-".join(ch)
+            return eff_
         return None
     t = diag.table_for(prog, A, fids, eff)
     # the hand-written equality of IF_DATA trees: the condition under which eq() returns true
